@@ -465,6 +465,9 @@ func (r *Run) ParFor(n int, fn func(i int, w *Worker)) {
 func (r *Run) Fail(class string, mk func() (Case, string, string)) {
 	c, exp, got := mk()
 	h := HashKey(c.Key())
+	if d := os.Getenv("VERIF_DUMP"); d != "" && strings.HasPrefix(class, d) {
+		fmt.Printf("DUMP %s | %s | exp=%s got=%s\n", class, c.Key(), exp, got)
+	}
 	if r.Regen {
 		r.mu.Lock()
 		r.regen[class] = append(r.regen[class], h)
